@@ -1128,9 +1128,18 @@ impl<'a, 'b> TreeGen<'a, 'b> {
         };
 
         if has_list_pattern {
-            let (tail_cases, cases): (Vec<_>, Vec<_>) = specialized_matrices
+            let (mut tail_cases, cases): (Vec<_>, Vec<_>) = specialized_matrices
                 .into_iter()
                 .partition(|(case, _)| matches!(case, CaseTest::ListWithTail(_)));
+
+            // Matrices are created in the order patterns show up in the clauses, e.g.
+            // `[a, b, ..]` before `[a, ..]`. The code generation relies on tail cases being
+            // ordered by length: the last one is the one used for any list longer than
+            // all the patterns.
+            tail_cases.sort_by_key(|(case, _)| match case {
+                CaseTest::ListWithTail(elems_count) => *elems_count,
+                _ => unreachable!(),
+            });
 
             DecisionTree::ListSwitch {
                 path,
